@@ -270,3 +270,21 @@ fn c10_num_twin_must_fail() {
         assert!(IntValue::valid_syntax(s) == all_digits);
     }
 }
+
+// the extreme values on their own (a much smaller formula than the ±4096 edge ranges)
+#[kani::proof]
+#[kani::unwind(13)]
+#[kani::stub(alloc::fmt::format, fmt_stub)]
+fn c10_i32_extremes() {
+    let k: u8 = kani::any();
+    kani::assume(k < 6);
+    let i: i32 = match k {
+        0 => i32::MIN,
+        1 => i32::MIN + 1,
+        2 => -1,
+        3 => 0,
+        4 => 1,
+        _ => i32::MAX,
+    };
+    i32_case(i);
+}
